@@ -11,7 +11,7 @@ Vocabulary (Model/C27.lean, Proofs/C28Inv.lean):
 * `ofTable T` — block execution = `preExec`: PreExecBlock's checks in the order of the code;
 * `node T F m hi lo r g evs` — the node after ANY sequence `evs` of events on a node holding only
   the genesis block `g`: blocks handed to `ProcessBlock` (any header, any body, valid or not, any
-  order, from peers or the download path), transaction instances admitted by / leaving the mempool;
+  order, from peers or the download path), transaction instances admitted by / leaving the mempool, node restarts;
 * `chainKeys T best` — the transaction hashes along the best chain.
 -/
 namespace C28
@@ -75,7 +75,8 @@ theorem chain_tx_signed (T : Table) (F m hi lo : Nat) (r : Bool) (g : Blk) (hg :
     cases e with
     | deliver b s => trivial
     | poolAdd x => exact hpool x he
-    | poolDel x => trivial) h0
+    | poolDel x => trivial
+    | restart => trivial) h0
   exact h1.1.2.2
 
 /-- Non-vacuity, and the S-C28 input on the repaired model: instance 0 (hash 7, correctly signed)
@@ -153,7 +154,8 @@ theorem chain_tx_unique_partial (T : Table) (hnx : ∀ i, txhOf (T i) = none)
     cases e with
     | deliver b s => exact hev b s he
     | poolAdd x => trivial
-    | poolDel x => trivial) h0
+    | poolDel x => trivial
+    | restart => trivial) h0
   exact ⟨h1.1.2.2, h1.1.2.1⟩
 
 /-- Non-vacuity of `chain_tx_unique_partial`: duplicates in one block, in a later block, and after
